@@ -842,7 +842,7 @@ func RunFsyncOrder(c *core.Ctx) {
 	defer f.Close()
 	type win struct {
 		lastPwrite, syncAfter int
-		pwrites           int
+		pwrites               int
 	}
 	cur := -1 // operation whose window is open
 	w := win{lastPwrite: -1, syncAfter: -1}
